@@ -252,8 +252,10 @@ def run(tier, rnd, out):
         n = rnd.choice([1, 2, 3, 8, 30]) if tier == "quick" else rnd.choice([1, 5, 30, 100])
         cs.append(mk(rnd, rnd.randrange(1, 5), [rnd.choice(LETTERS) for _ in range(rnd.randrange(1, n + 1))]))
     run_sequences(out, "sequences-over-udp", cs)
-    if world.well_known_ports(): run_sequences(out, "on-the-library's-default-ports", well_known_cases(rnd))
-    else: out.notes.append("the library's default ports are not all free on this host: that stream was skipped")
+    if world.well_known_ports():
+        try: run_sequences(out, "on-the-library's-default-ports", well_known_cases(rnd))
+        finally: world.release_well_known_ports()
+    else: out.notes.append("the library's default ports were not available on this machine for a minute: stream on-the-library's-default-ports not run")
     run_during_start(out, rnd, 6 if tier == "quick" else 60)
     run_unreferenced(out, rnd, 8 if tier == "quick" else 40)
     run_repeats(out, "repeated-datagrams-one-at-a-time", [mk_repeats(rnd, rnd.randrange(1, 4), rnd.randrange(2, 12)) for _ in range(60 if tier == "quick" else 600)])
